@@ -149,6 +149,8 @@ pub enum Menu {
     Overlap,
     /// client pointers (concrete, abstract and list targets) selected at several positions
     Pointers,
+    /// the same client field / pointer defined several times (invalid programs; determinism of the diagnostics)
+    Dups,
     /// declaration shapes: field / pointer on every kind of parent type x variable definitions x entrypoint on it
     Decls,
     /// client fields with parameters, selected with literal / variable / missing arguments (variable substitution through client fields)
@@ -212,7 +214,7 @@ pub fn menu(ty: Ty, m: Menu) -> Vec<Atom> {
         (Ty::Pet, Menu::Args) => vec![a("id"), a("tag(style: \"s\", n: 1)"), a("t2: tag(style: \"it's\")"), av("t3: tag(n: $n)", &[("n", "Int")]), a("t4: tag(n: -1)")],
         (Ty::Node, Menu::Args) => vec![a("__typename")],
 
-        (_, Menu::Decls) => vec![a("id")],
+        (_, Menu::Decls) | (_, Menu::Dups) => vec![a("id")],
         (Ty::Query, Menu::Pointers) => vec![
             o("me", Ty::User),
             Atom { text: "bestUser", child: Some(Ty::User), vars: &[], needs: Some("Query.bestUser") },
@@ -449,6 +451,24 @@ pub fn programs(m: Menu, k: usize) -> Vec<Program> {
                     ],
                 });
             }
+        }
+        return out;
+    }
+    if m == Menu::Dups {
+        let bodies = ["count", "me {\n    id\n  }", "c2: count", "me {\n    name\n  }"];
+        for n in 2..=k.max(2).min(4) {
+            let mut decls: Vec<Decl> = (0..n).map(|i| Decl::Raw { export: format!("Root{i}"), text: format!("field Query.Root {{\n  {}\n}}", bodies[i]) }).collect();
+            decls.push(ep.clone());
+            out.push(Program { menu: m, decls: decls.clone() });
+            // a second duplicated name, and a duplicated pointer
+            let mut d2 = decls.clone();
+            d2.insert(1, Decl::Raw { export: "Other0".into(), text: "field User.Other {\n  id\n}".into() });
+            d2.push(Decl::Raw { export: "Other1".into(), text: "field User.Other {\n  name\n}".into() });
+            out.push(Program { menu: m, decls: d2 });
+            let mut d3 = decls;
+            d3.push(Decl::Raw { export: "P0".into(), text: "pointer Query.Ptr to User {\n  me {\n    __link\n  }\n}".into() });
+            d3.push(Decl::Raw { export: "P1".into(), text: "pointer Query.Ptr to User {\n  me {\n    __link\n    id\n  }\n}".into() });
+            out.push(Program { menu: m, decls: d3 });
         }
         return out;
     }
